@@ -360,6 +360,16 @@ class Poly:
         return tuple(sorted(s.t.items()))
 
 
+class NaNVal:
+    """the IEEE NaN as a VALUE (mdtraj pre-fills energy arrays with NaN and tests them with isnan)"""
+
+    def __repr__(s):
+        return "NaN"
+
+
+NAN = NaNVal()
+
+
 class GP:
     """guarded polynomial: the value is polys[i] under guards[i]; guards are z3 Bools, mutually exclusive and exhaustive
     by construction (they come from `select` instructions).  Leaves are NOT merged, so the components of a vector that
@@ -405,6 +415,8 @@ class GP:
 def P(x):
     if isinstance(x, (Poly, GP)):
         return x
+    if x is NAN:
+        raise EncoderError("arithmetic on NaN")
     return Poly.const(x)
 
 
@@ -445,6 +457,7 @@ class Interp:
         s.trail, s.pos, s.new_alts = list(trail), 0, []
         s.freed = set()
         s.heap = []                     # (allocator, object id, size) in allocation order
+        s.trace = []                    # (callee, args, return value) of calls to functions defined in the module
         s.calls = {}
         s.stubs = getattr(s, "stubs", {})      # callee name -> python function(I, args): compositional contracts
 
@@ -821,6 +834,11 @@ class Interp:
                 else:
                     raise EncoderError("pointer arithmetic " + op)
                 return None
+            if t.kind == "int" and t.bits == 1 and (isinstance(a, z3.ExprRef) or isinstance(b, z3.ExprRef)) and op in ("or", "and", "xor"):
+                za = a if isinstance(a, z3.ExprRef) else z3.BoolVal(bool(a))
+                zb = b if isinstance(b, z3.ExprRef) else z3.BoolVal(bool(b))
+                setv(z3.simplify({"or": z3.Or, "and": z3.And, "xor": z3.Xor}[op](za, zb)))
+                return None
             if not (isinstance(a, int) and isinstance(b, int)):
                 raise EncoderError("symbolic integer arithmetic")
             bits = t.bits
@@ -903,6 +921,11 @@ class Interp:
             pred, _, r2 = rest.partition(" ")
             t, r3 = s.tp.parse(r2)
             a, b = [s.val(env, t, x) for x in split_top(r3)]
+            if a is NAN or b is NAN:
+                if t.kind == "vector":
+                    raise EncoderError("NaN inside a vector compare")
+                setv(int(pred == "uno" or (pred[0] == "u" and pred != "uno" and pred != "une") or pred == "une"))
+                return None
             if pred in ("ord", "uno"):
                 setv(int(pred == "ord"))
                 return None
@@ -918,6 +941,8 @@ class Interp:
             def sel1(c1, x, y):
                 if not isinstance(c1, z3.ExprRef):
                     return x if c1 else y
+                if x is NAN or y is NAN:
+                    return x if s.decide(c1) else y
                 if t.kind not in ("float", "double", "vector") or (t.kind == "vector" and t.el.kind not in ("float", "double")):
                     return x if s.decide(c1) else y
                 if isinstance(x, z3.ExprRef) or isinstance(y, z3.ExprRef):
@@ -1080,7 +1105,9 @@ class Interp:
         if fn in s.mod.funcs:
             if depth > 50:
                 raise EncoderError("call depth")
-            return s.call(fn, a, depth + 1)
+            r = s.call(fn, a, depth + 1)
+            s.trace.append((fn, list(a), r))
+            return r
         raise EncoderError("extern " + fn)
 
     def _patch_zero_reads(s):
